@@ -377,6 +377,37 @@ func c17iterate(res *run.Result, pats []string) {
 			}
 		}
 	}
+	// The pattern of a SCAN call is the pattern given WITH THAT CALL: an iteration begun with one pattern and
+	// continued with another returns, from then on, only keys the other pattern selects (MATCH filters what a
+	// call returns; nothing about it is remembered from call to call).
+	for _, p2 := range pats {
+		for _, p1 := range []string{"*", pats[0]} {
+			v, ok := exchange(resp.Cmd("SCAN", "0", "MATCH", p1, "COUNT", "1"))
+			if !ok || v.K != '*' || len(v.A) != 2 {
+				continue
+			}
+			cursor := string(v.A[0].B)
+			if cursor == "0" {
+				continue
+			}
+			v, ok = exchange(resp.Cmd("SCAN", cursor, "MATCH", p2, "COUNT", "1000"))
+			if !ok || v.K != '*' || len(v.A) != 2 || v.A[1].K != '*' {
+				res.Violate("C17:server:scan-iteration-reply:"+metaClass(p2), "SCAN MATCH selects the keys the glob matches", fmt.Sprintf("SCAN %s MATCH %q COUNT 1000 answered %s", cursor, p2, clipS(v.String(), 200)), map[string]any{"pattern": p2})
+				return
+			}
+			res.Count("scan_calls_with_a_switched_pattern", 1)
+			var extra []string
+			for _, k := range v.A[1].A {
+				if !globref.Match(p2, string(k.B)) {
+					extra = append(extra, fmt.Sprintf("%q", k.B))
+				}
+			}
+			if len(extra) > 0 {
+				res.Violate("C17:server:scan-switched-pattern:"+metaClass(p2), "KEYS and SCAN MATCH agree on which keys a pattern selects", fmt.Sprintf("SCAN 0 MATCH %q COUNT 1 gave cursor %s; SCAN %s MATCH %q COUNT 1000 then returned keys that %q does not select: {%s}", p1, cursor, cursor, p2, p2, clipS(strings.Join(extra, " "), 300)), map[string]any{"first_pattern": p1, "pattern": p2})
+				return
+			}
+		}
+	}
 }
 
 func init() {
@@ -387,7 +418,7 @@ func init() {
 			if tier == "thorough" {
 				blocks = "complete blocks: patterns <=3 x keys <=5, patterns =4 x keys <=4, patterns =5 x keys <=3 over {a,b,*,?,.,+,(,|,$}; the remaining patterns =5 x keys 4..5 block is sampled (150 keys per pattern)"
 			}
-			return "part 1: glob.Compile(p) must not fail or panic and MatchString(k) must equal a direct recursive glob matcher: " + blocks + "; plus seeded random patterns up to length 12 over that alphabet extended with ^ { } ) , space newline 0 (one in forty with a byte that is not valid UTF-8), each against 60 keys derived from the pattern or random. part 2: the bundled example store is populated through the real connection loop with all 91 keys of length <=2 (as string, hash, list and set keys) and for every pattern of length <=3 plus seeded longer ones the key sets of KEYS p, SCAN 0 MATCH p COUNT 1000 and the reference selection must be equal; for '*' and four patterns of each batch a full SCAN iteration (cursor 0, then the returned cursor, until 0 comes back) with default COUNT and COUNT 1, 3, 7 must end and select exactly those keys. distinct_nontrivial = distinct patterns containing a wildcard or a regexp metacharacter (part 1) plus server patterns (part 2)"
+			return "part 1: glob.Compile(p) must not fail or panic and MatchString(k) must equal a direct recursive glob matcher: " + blocks + "; plus seeded random patterns up to length 12 over that alphabet extended with ^ { } ) , space newline 0 (one in forty with a byte that is not valid UTF-8), each against 60 keys derived from the pattern or random. part 2: the bundled example store is populated through the real connection loop with all 91 keys of length <=2 (as string, hash, list and set keys) and for every pattern of length <=3 plus seeded longer ones the key sets of KEYS p, SCAN 0 MATCH p COUNT 1000 and the reference selection must be equal; for '*' and four patterns of each batch a full SCAN iteration (cursor 0, then the returned cursor, until 0 comes back) with default COUNT and COUNT 1, 3, 7 must end and select exactly those keys, and a SCAN call that continues an iteration begun with ANOTHER pattern must return only keys its own pattern selects. distinct_nontrivial = distinct patterns containing a wildcard or a regexp metacharacter (part 1) plus server patterns (part 2)"
 		},
 		Exhaustive:  func(tier string) bool { return false },
 		Assumptions: []string{"patterns and keys are ASCII; '[', ']' and '\\' (character classes and escapes of Redis globs) are outside the statement and never generated"},
